@@ -229,3 +229,117 @@ Theorem C11_generated_callbacks_registered :
     (forall s c, RegOk m s -> RegOk m (fst (gen_run_cb m (cb_of m) c s))).
 Proof. exact (fun m => conj (regs_ok_init m) (conj (regs_ok_create_task m) (regs_ok_run_cb m))). Qed.
 Print Assumptions C11_generated_callbacks_registered.
+
+(* ---- the fully generated asynchronous stack (GenAsyncSystem.v): generated managers on TaskMgr.v's event loop, generated executor on top ---- *)
+
+(* ---- the capstone of the tie (theories/GenAsyncSystem.v): an event machine [gen_tm_run] in which every piece of
+   manager code is the generated one - a [Submit] event and every submission from inside a running body run the
+   generated create_task, an [HDone] handle runs what the generated add_done_callback registered ([regs]) through the
+   generated dispatcher - while the event loop (ready queue, Run / Tick, Task.__step, end_step, Resolve / Fail /
+   CancelExt) is TaskMgr.v's.  It computes TaskMgr.run on every event list, so the theorems above are theorems about a
+   run of the generated classes. *)
+From EAS Require GenAsyncSystem.
+Import GenAsyncSystem.
+Theorem C11_generated_machine_is_model :
+  forall nm m evs, cfg_ok m ->
+    gms (gen_tm_run nm m evs) = run m evs /\ regs_ok m (gen_tm_run nm m evs) /\ gexc (gen_tm_run nm m evs) = [].
+Proof. exact gen_tm_run_is_model. Qed.
+Print Assumptions C11_generated_machine_is_model.
+
+Theorem C11_generated_machine_loop_is_taskmgr :
+  forall m s c b,
+    run_step m s c b = match step_entry s c with ENoBody s' => s' | EBody s1 w => body m s1 c w b end.
+Proof. exact run_step_entry. Qed.
+Print Assumptions C11_generated_machine_loop_is_taskmgr.
+
+Theorem C11_generated_machine_registered :
+  forall nm m evs c, cfg_ok m ->
+    cbs_for c (regs (rt (gen_tm_run nm m evs))) =
+      if has_task (ph (gms (gen_tm_run nm m evs)) c) then [cb_of m] else [].
+Proof. exact gen_tm_registered. Qed.
+Print Assumptions C11_generated_machine_registered.
+
+Theorem C11_generated_machine_seq_mutex :
+  forall nm m evs, cfg_ok m -> is_seq m = true ->
+    (forall c, is_live (ph (gen_tm_state nm m evs) c) = true <-> running (gen_tm_state nm m evs) = Some c) /\
+    (forall c c', is_live (ph (gen_tm_state nm m evs) c) = true -> is_live (ph (gen_tm_state nm m evs) c') = true -> c = c') /\
+    (forall c c', body_open (gen_tm_state nm m evs) c -> body_open (gen_tm_state nm m evs) c' -> c = c') /\
+    (running (gen_tm_state nm m evs) = None -> queue (gen_tm_state nm m evs) = []).
+Proof. exact gen_tm_seq_mutex. Qed.
+Print Assumptions C11_generated_machine_seq_mutex.
+
+Theorem C11_generated_machine_seq_order :
+  forall nm m evs, cfg_ok m -> is_seq m = true ->
+    started (gen_tm_state nm m evs) ++ map fst (queue (gen_tm_state nm m evs)) =
+      filter (fun x => negb (memb x (closed (gen_tm_state nm m evs)))) (map fst (subk (gen_tm_state nm m evs))) /\
+    entlog (gen_tm_state nm m evs) = filter (ent (gen_tm_state nm m evs)) (started (gen_tm_state nm m evs)).
+Proof. exact gen_tm_seq_order. Qed.
+Print Assumptions C11_generated_machine_seq_order.
+
+Theorem C11_generated_machine_conservation :
+  forall nm m evs, cfg_ok m -> conservation_stmt (gen_tm_state nm m evs).
+Proof. exact gen_tm_conservation. Qed.
+Print Assumptions C11_generated_machine_conservation.
+
+Theorem C11_generated_machine_seq_progress :
+  forall nm m evs, cfg_ok m -> is_seq m = true ->
+    (forall c, running (gen_tm_state nm m evs) = Some c ->
+       match ph (gen_tm_state nm m evs) c with
+       | Created | Waking _ => In (HStep c) (ready (gen_tm_state nm m evs))
+       | Done _ => In (HDone c) (ready (gen_tm_state nm m evs))
+       | Parked | Running => True
+       | _ => False
+       end) /\
+    (forall c r bs, ready (gen_tm_state nm m evs) = HDone c :: r ->
+       running (gen_tm_state nm m evs) = Some c /\
+       match queue (gen_tm_state nm m evs) with
+       | [] => running (gen_tm_state nm m (evs ++ [Run bs])) = None /\ queue (gen_tm_state nm m (evs ++ [Run bs])) = []
+       | (c', k') :: q =>
+           running (gen_tm_state nm m (evs ++ [Run bs])) = Some c' /\ queue (gen_tm_state nm m (evs ++ [Run bs])) = q /\
+           ph (gen_tm_state nm m (evs ++ [Run bs])) c' = Created /\
+           In (HStep c') (ready (gen_tm_state nm m (evs ++ [Run bs]))) /\
+           started (gen_tm_state nm m (evs ++ [Run bs])) = started (gen_tm_state nm m evs) ++ [c'] /\
+           cbs_for c' (regs (rt (gen_tm_run nm m (evs ++ [Run bs])))) = [CbTaskDone]
+       end).
+Proof. exact gen_tm_seq_progress. Qed.
+Print Assumptions C11_generated_machine_seq_progress.
+
+Theorem C11_generated_machine_seq_queue_bound :
+  forall nm q p evs, cfg_ok (MSeqLim q p) -> length (queue (gen_tm_state nm (MSeqLim q p) evs)) <= q.
+Proof. exact gen_tm_seq_queue_bound. Qed.
+Print Assumptions C11_generated_machine_seq_queue_bound.
+
+Theorem C11_generated_machine_seq_drop_exact :
+  forall nm q p evs c k,
+    cfg_ok (MSeqLim q p) -> ph (gen_tm_state nm (MSeqLim q p) evs) c = Unknown ->
+    let s := gen_tm_state nm (MSeqLim q p) evs in
+    let s' := gen_tm_state nm (MSeqLim q p) (evs ++ [Submit c k]) in
+    length (queue s) <= q /\
+    if length (queue s) <? q then
+      closed s' = closed s /\
+      match running s with
+      | Some _ => queue s' = queue s ++ [(c, k)] /\ started s' = started s /\ running s' = running s
+      | None => queue s' = [] /\ running s' = Some c /\ started s' = started s ++ [c]
+      end
+    else
+      started s' = started s /\ running s' = running s /\
+      match p with
+      | SSkip => closed s' = closed s ++ [c] /\ queue s' = queue s
+      | SSkipFirst => exists v kv t, queue s = (v, kv) :: t /\ closed s' = closed s ++ [v] /\ queue s' = t ++ [(c, k)]
+      | SSkipLast => exists v kv t, queue s = t ++ [(v, kv)] /\ closed s' = closed s ++ [v] /\ queue s' = t ++ [(c, k)]
+      end.
+Proof. exact gen_tm_seq_drop_exact. Qed.
+Print Assumptions C11_generated_machine_seq_drop_exact.
+
+Theorem C11_generated_machine_seq_unbounded_never_drops :
+  forall nm evs, closed (gen_tm_state nm MSeq evs) = [].
+Proof. exact gen_tm_seq_unbounded_never_drops. Qed.
+Print Assumptions C11_generated_machine_seq_unbounded_never_drops.
+
+Theorem C11_generated_machine_dedup_newest :
+  forall nm evs,
+    NoDup (map snd (queue (gen_tm_state nm MSeqDedup evs))) /\
+    forall c k, In (c, k) (queue (gen_tm_state nm MSeqDedup evs)) ->
+      exists l1 l2, subk (gen_tm_state nm MSeqDedup evs) = l1 ++ (c, k) :: l2 /\ forall c', ~ In (c', k) l2.
+Proof. exact gen_tm_dedup_newest. Qed.
+Print Assumptions C11_generated_machine_dedup_newest.
